@@ -9,11 +9,14 @@ package main
 
 import (
 	"bytes"
+	"encoding/json"
 	"fmt"
+	"math/rand"
 	"time"
 
 	dbm "github.com/cometbft/cometbft-db"
 	storetypes "github.com/cosmos/cosmos-sdk/store/types"
+	upgradetypes "github.com/cosmos/cosmos-sdk/x/upgrade/types"
 	"github.com/medibloc/panacea-core/v2/app"
 )
 
@@ -86,6 +89,57 @@ func monC19UpgradePathDatabase(s *Stream) {
 		runBlock(a, t, nil)
 		if dropped != "" {
 			return "fail #binary-mounts-stores-no-descriptor-declares:" + dropped
+		}
+		return "pass"
+	}))
+}
+
+// mon.c19.genesis-without-upgrade-section: x/upgrade has no genesis state of its own (its default section is `{}`), so
+// a genesis file may leave the section out.  The chain started from such a file must still have its module versions
+// recorded, and the scheduled upgrade must run through on it without halting.
+func monC19GenesisWithoutUpgradeSection(s *Stream) {
+	name := "mon.c19.genesis-without-upgrade-section"
+	s.Inflight(name)
+	s.Emit(name, guard(func() string {
+		accts := rtAccts()
+		a, err := NewChain(dbm.NewMemDB(), tmpHome(), accts, 100000, map[string]json.RawMessage{"upgrade": nil})
+		if err != nil {
+			return "fail #genesis-without-upgrade-section-does-not-start " + err.Error()[:min(80, len(err.Error()))]
+		}
+		t := a.Time
+		rng := rand.New(rand.NewSource(19))
+		for i := 0; i < 3; i++ {
+			t = t.Add(5 * time.Second)
+			runBlock(a, t, genTxs(a, accts, rng, 2))
+		}
+		want := a.App.ModuleManager.GetVersionMap()
+		got := a.App.UpgradeKeeper.GetModuleVersionMap(a.QueryCtx())
+		for m, v := range want {
+			if got[m] != v {
+				return fmt.Sprintf("fail #module-version-not-recorded %s: stored %d, binary %d", m, got[m], v)
+			}
+		}
+		planHeight := a.Height + 2
+		t = t.Add(5 * time.Second)
+		a.Begin(t)
+		if err := a.App.UpgradeKeeper.ScheduleUpgrade(a.DeliverCtx(), upgradetypes.Plan{Name: "v2.2.1", Height: planHeight}); err != nil {
+			return "fail #schedule " + err.Error()
+		}
+		a.End()
+		a.Commit()
+		before := ""
+		for a.Height < planHeight+1 {
+			t = t.Add(5 * time.Second)
+			if a.Height+1 == planHeight {
+				before = dumpsOf(a, a.QueryCtx())
+			}
+			runBlock(a, t, nil) // a halt in the upgrade block is a panic, caught by guard
+		}
+		if a.App.UpgradeKeeper.GetDoneHeight(a.QueryCtx(), "v2.2.1") != planHeight {
+			return "fail #done-height-not-recorded"
+		}
+		if dumpsOf(a, a.QueryCtx()) != before {
+			return "fail #custom-data-changed-by-upgrade"
 		}
 		return "pass"
 	}))
